@@ -1,1 +1,8 @@
-// crate-root verif module
+// crate-root verif module (compiled only with --cfg cberner_raptorq_verif)
+#[path = "/verif/spec/gf.rs"]
+pub mod gf;
+
+// native replay of a Kani counterexample (concrete playback): the scratch file is written by /verif/lib/kunit.py
+#[cfg(all(kani, cberner_raptorq_verif_playback))]
+#[path = "/verif/.build/playback/pb.rs"]
+mod playback;
